@@ -179,6 +179,36 @@ SECTION_EQUIV = {
 }
 
 
+def _attr_polarities(cx, t, pol):
+    """[(attribute of self, +1 | -1 | 0)] for every occurrence in the condition ``t`` (required to be ``pol``): +1 when the
+    condition asks for the attribute to be set (truthy / not None), -1 when it asks for it to be unset, 0 when it is compared
+    in some other way"""
+    out = []
+
+    def rec(x, sign):
+        a = cx.self_attr(x)
+        if a is not None:
+            out.append((a, sign))
+            return
+        if x[0] == "unary" and x[1] == "not":
+            return rec(x[2], -sign)
+        if x[0] == "boolop":
+            for y in x[2]:
+                rec(y, sign)
+            return
+        if x[0] == "cmp" and len(x[1]) == 1 and x[1][0] in ("is", "is not", "==", "!=") and ("const", None) in x[2]:
+            other = [y for y in x[2] if y != ("const", None)]
+            if len(other) == 1 and cx.self_attr(other[0]) is not None:
+                out.append((cx.self_attr(other[0]), sign if x[1][0] in ("is not", "!=") else -sign))
+                return
+        if x[0] == "call" and x[1] == ("global", "bool") and len(x[2]) == 1:
+            return rec(x[2][0], sign)
+        for a in cx.self_attrs_in(x):
+            out.append((a, 0))
+    rec(t, 1 if pol else -1)
+    return out
+
+
 def r_schema(model, rep, qname, floor_keys):
     cls = model.cls(qname)
     wcx, W, R, wsec, rsec, unkeyed, emits, reads = schema_tables(model, qname)
@@ -243,6 +273,11 @@ def r_schema(model, rep, qname, floor_keys):
             rep.ob("R-SCHEMA", "%s:guard:%s" % (qname, k), okg, site=wcx.site(e.ev.lineno),
                    msg="" if okg else "key %r is only written under a condition on %s (allowed: its own attribute %s)" % (
                        k, sorted(gattrs - allowed), sorted(allowed)))
+            # a key may be left out when its attribute (or companion) is unset - never when it is set
+            neg = sorted(set(a for g in guards for a, sign in _attr_polarities(wcx, g[0], g[1]) if sign < 0 and a in allowed))
+            rep.ob("R-SCHEMA", "%s:omitted-only-when-unset:%s" % (qname, k), not neg, site=wcx.site(e.ev.lineno),
+                   msg="" if not neg else "key %r is written only when self.%s is UNSET: a set value is dropped and read back as the "
+                                          "default" % (k, "/".join(neg))) if guards else None
             for comp in sorted(gattrs - {attr}) if okg and (qname, k) in OMISSION_REFUSED else ():
                 from .validation import omission_refused
                 okr = omission_refused(model, cls, attr, comp)
